@@ -43,6 +43,9 @@ pub struct Gs1State {
     pub extra: Vec<(String, String)>,
     pub players: Vec<Gs1Player>,
     pub query_id: u32,
+    /// how a reply that fits one datagram names itself: 0 = `queryid\\<id>.1` (as every part of a longer reply),
+    /// 1 = `queryid\\<id>` without a part number, 2 = no queryid at all (older servers)
+    pub single_part_style: u8,
 }
 
 impl Gs1State {
@@ -133,7 +136,11 @@ impl Gs1State {
                 if i + 1 == n {
                     s.push_str("\\final\\");
                 }
-                s.push_str(&format!("\\queryid\\{}.{}", self.query_id, i + 1));
+                match (n, self.single_part_style) {
+                    (1, 1) => s.push_str(&format!("\\queryid\\{}", self.query_id)),
+                    (1, 2) => {}
+                    _ => s.push_str(&format!("\\queryid\\{}.{}", self.query_id, i + 1)),
+                }
                 s.into_bytes()
             })
             .collect()
@@ -245,6 +252,8 @@ pub fn gen_gs1(c: &mut Chooser, player_counts: &[usize]) -> Gs1State {
                     format!("worldlog_{i}x"),
                     format!("odd key {i}"),
                     format!("a_b_{i}"),
+                    // looks like a per-player variable (word, underscore, number) but is none the format defines
+                    format!("custom_{i}"),
                 ]),
                 gs1_str(c, "some value"),
             )
@@ -301,6 +310,7 @@ pub fn gen_gs1(c: &mut Chooser, player_counts: &[usize]) -> Gs1State {
         extra,
         players,
         query_id: pick(c, &[7u32, 0, 1, u32::MAX]),
+        single_part_style: pick(c, &[0u8, 1, 2]),
     }
 }
 
